@@ -122,8 +122,12 @@ PROPS["C15"] = {
     "kani": [(_Q, r"^c15_")],
     "e2": ["c15", "commit"],
     "functions_encoded": ["evaluator_equality::cypher_equals", "nervusdb_storage::index::ordered_key::encode_ordered_value",
-                          "executor::index_seek_plan::execute_index_seek", "engine::WriteTxn::commit (index maintenance phase)"],
+                          "executor::index_seek_plan::execute_index_seek", "engine::WriteTxn::commit (index maintenance phase)",
+                          "query_api::match_compile::compile_pattern_chain (start-plan arms, entered at the clone of the element's labels)",
+                          "query_api::match_compile::apply_label_filters_for_alias"],
     "bounds": {"values": "all i64 / f64 (non-NaN) / bool pairs", "shapes": "(Int,Int) (Float,Float) (Bool,Bool) (Int,Float)",
+               "planner": "first pattern node with 0..3 labels (symbolic ids), with/without an input plan, source bound as node / relationship / unbound, "
+                          "first relationship bound or not, pushed-down predicate map absent / empty / non-empty",
                "index maintenance": "one property change per transaction: SET on an existing node, SET on a node created by the transaction, REMOVE; "
                                     "primary label present/absent, index present/absent, old value present/absent; all ids symbolic"},
     "stubs": ["index maintenance: BTree::{load, insert, delete, root} are recorders (each mutation yields a fresh symbolic root), encode_ordered_value = "
@@ -136,7 +140,11 @@ PROPS["C15"] = {
                   "execute_index_seek: the seek value reaches the index lookup kind-for-kind and bit-for-bit, unsupported kinds and a "
                   "missing/empty index answer run the fallback scan plan, a non-empty answer is emitted alone and sorted; and of the index "
                   "maintenance phase of WriteTxn::commit: the old key (index id + encoded old value, node id) is deleted, the new key inserted, "
-                  "nothing is touched without a label/index, and the catalog ends up pointing at the tree's current root and is flushed. Partial; "
+                  "nothing is touched without a label/index, and the catalog ends up pointing at the tree's current root and is flushed; and of the four "
+                  "start-plan arms of compile_pattern_chain: on every path the start plan (NodeScan / IndexSeek / joined input) sits under a label "
+                  "filter built from the complete label list of the pattern node, first label included, and apply_label_filters_for_alias (real body, 0..3 labels) "
+                  "returns Filter(plan, AND of `alias IS NULL OR alias:label` for every label handed in), so a stale index entry of a node that lost "
+                  "the label cannot change the rows. Partial; "
                   "the Int-vs-Float disagreement (1 = 1.0 but different keys) is a recorded known finding.",
     "level_note": "Trusted: Kani/CBMC/CaDiCaL, rustc MIR dump, E2 translator and recorder models, z3.",
     "design_ref": "DESIGN.md section 3, C15",
